@@ -1,6 +1,7 @@
 import Feox.Props.C03
 import Feox.Fmt.Commit
 import Feox.Fmt.ScanOk
+import Feox.Fmt.Replay
 /-!
 # C03 (continued) — the two transactions of the device protocol, on the bytes
 
